@@ -335,6 +335,10 @@ pub fn make_input(rng: &mut Rng, w: &Words, class: u64, len: usize) -> Vec<u8> {
                     }
                 } else {
                     v.extend_from_slice(if rng.chance(1, 2) { pw(rng, &w.maxroll) } else { pw(rng, &w.zeroroll) });
+                    // an extreme window followed by zero bytes
+                    for _ in 0..rng.range(0, 3) {
+                        v.push(0);
+                    }
                 }
             }
             while v.len() < len {
